@@ -53,7 +53,19 @@ pub struct ServerConfig { pub client_kind: Kind, pub alpn_protocols: Alpn }
 pub struct Alpn(pub u8);
 pub struct SB0; pub struct SB1; pub struct SB2 { kind: Kind }
 impl ServerConfig { pub fn builder() -> SB0 { SB0 } }
-impl SB0 { pub fn with_safe_defaults(self) -> SB1 { SB1 } }
+impl SB0 {
+    pub fn with_safe_defaults(self) -> SB1 { SB1 }
+    // the explicit spelling of the same builder steps (rustls 0.21): cipher suites, key exchange groups, protocol versions
+    pub fn with_safe_default_cipher_suites(self) -> SB0a { SB0a }
+}
+pub struct SB0a; pub struct SB0b;
+impl SB0a { pub fn with_safe_default_kx_groups(self) -> SB0b { SB0b } }
+impl SB0b {
+    pub fn with_protocol_versions(self, _v: &[&SupportedProtocolVersion]) -> Result<SB1, TlsErr> { Ok(SB1) }
+    pub fn with_safe_default_protocol_versions(self) -> Result<SB1, TlsErr> { Ok(SB1) }
+}
+pub struct SupportedProtocolVersion(pub u8);
+#[derive(Debug)] pub struct TlsErr;
 impl SB1 {
     pub fn with_client_cert_verifier(self, v: Arc<dyn ClientCertVerifier>) -> SB2 { SB2 { kind: v.kind() } }
     pub fn with_no_client_auth(self) -> SB2 { SB2 { kind: Kind::NoClientAuth } }
@@ -63,7 +75,7 @@ impl SB2 {
         unsafe { if SINGLE_CERT_OK { Ok(ServerConfig { client_kind: self.kind, alpn_protocols: Alpn(0) }) } else { Err(Error { cause: 2 }) } }
     }
 }
-pub mod rustls { pub use super::ServerConfig; }
+pub mod rustls { pub use super::ServerConfig; pub mod version { pub static TLS13: crate::SupportedProtocolVersion = crate::SupportedProtocolVersion(13); pub static TLS12: crate::SupportedProtocolVersion = crate::SupportedProtocolVersion(12); } }
 
 pub struct TlsServerConfigPopulated { pub config: Arc<ServerConfig> }
 
